@@ -57,6 +57,44 @@ LeavesFunction(lines, entries) ==
      /\ FnOfLabel(lines, lines[k].tgt) # lines[k].fn
      /\ lines[k].tgt \notin entries
 
+(***************************************************************************)
+(* Relative mode (remove_labels(code, relative_numbers = TRUE); not        *)
+(* reachable through an option today, specified and bound all the same).   *)
+(* Every instruction that has a relative twin (j -> jr, beq -> breq, ...)  *)
+(* is renamed and its label replaced by target - own line; labels that are *)
+(* the target of an instruction WITHOUT a relative twin (jal) stay in the  *)
+(* text as lines of their own, and - as on the chip - occupy a line.       *)
+(***************************************************************************)
+HasRel == {"j", "bap", "bapz", "bdns", "bdse", "beq", "beqz", "bge", "bgez", "bgt", "bgtz",
+           "ble", "blez", "blt", "bltz", "bna", "bnan", "bnaz", "bne", "bnez"}
+RelOf(op) == IF op = "j" THEN "jr" ELSE "br" \o SubSeq(op, 2, Len(op))
+KeptRel(lines) == {lines[k].tgt : k \in {j \in 1..Len(lines) : lines[j].tgt # "" /\ lines[j].toks[1] \notin HasRel}}
+Survives(lines, k) == ~IsLabel(lines[k]) \/ lines[k].lab \in KeptRel(lines)
+\* 0-based line number, in the relative text, of the first surviving line at or after line k
+RelIndex(lines, k) == Cardinality({j \in 1..(k - 1) : Survives(lines, j)})
+RelTargetOf(lines, name) == RelIndex(lines, CHOOSE k \in 1..Len(lines) : lines[k].lab = name)
+Gone(lines) == LabelNames(lines) \ KeptRel(lines)
+RelLine(lines, k) ==
+  LET toks == lines[k].toks
+      hit  == \E p \in 2..Len(toks) : toks[p] \in Gone(lines)
+  IN IF IsLabel(lines[k]) THEN <<lines[k].lab \o ":">>
+     ELSE IF ~hit THEN toks
+     ELSE [p \in 1..Len(toks) |->
+             IF p = 1 THEN (IF toks[1] \in HasRel THEN RelOf(toks[1]) ELSE toks[1])
+             ELSE IF toks[p] \in Gone(lines) THEN ToString(RelTargetOf(lines, toks[p]) - RelIndex(lines, k))
+             ELSE toks[p]]
+ResolveRel(lines) ==
+  LET keep == SelectSeq([k \in 1..Len(lines) |-> k], LAMBDA k : Survives(lines, k))
+  IN [i \in 1..Len(keep) |-> RelLine(lines, keep[i])]
+RelText(rel) == [k \in 1..Len(rel) |-> IF IsLabel(rel[k]) THEN <<rel[k].lab \o ":">> ELSE rel[k].toks]
+\* verdict of the relative text of a case ("" = the case carries none)
+RelVerdict(c) ==
+  IF "rel" \notin DOMAIN c THEN ""
+  ELSE IF \E t \in Referenced(c.kept) : DefCount(c.kept, t) # 1 THEN "REL_SKIPPED_DUPLICATE_LABEL"
+  ELSE IF Len(ResolveRel(c.kept)) # Len(c.rel) THEN "REL_LINE_COUNT_DIFFERS"
+  ELSE IF ResolveRel(c.kept) # RelText(c.rel) THEN "REL_RESOLVE_MISMATCH"
+  ELSE "REL_OK"
+
 Verdict(c) ==
   IF UndefinedTarget(c.kept) THEN "UNDEFINED_LABEL"
   ELSE IF LeavesFunction(c.kept, {c.entries[i] : i \in 1..Len(c.entries)}) THEN "JUMP_INTO_OTHER_FUNCTION"
@@ -70,7 +108,9 @@ Verdict(c) ==
 
 VARIABLES tid, verdict
 Init == tid \in 1..Len(Cases) /\ verdict = ""
-Judge == verdict = "" /\ verdict' = Verdict(Cases[tid]) /\ UNCHANGED tid
+Judge == /\ verdict = ""
+         /\ (RelVerdict(Cases[tid]) = "" \/ PrintT(<<"RELVERDICT", tid, RelVerdict(Cases[tid])>>))
+         /\ verdict' = Verdict(Cases[tid]) /\ UNCHANGED tid
 Report == /\ verdict \notin {"", "reported"} /\ PrintT(<<"VERDICT", tid, verdict>>)
           /\ verdict' = "reported" /\ UNCHANGED tid
 Spec == Init /\ [][Judge \/ Report]_<<tid, verdict>>
@@ -79,5 +119,6 @@ Spec == Init /\ [][Judge \/ Report]_<<tid, verdict>>
 T1 == << [lab |-> "", toks |-> <<"j", "b">>, tgt |-> "b", fn |-> ""], [lab |-> "a", toks |-> <<>>, tgt |-> ""], [lab |-> "", toks |-> <<"yield">>, tgt |-> ""],
          [lab |-> "b", toks |-> <<>>, tgt |-> ""], [lab |-> "", toks |-> <<"jal", "a">>, tgt |-> "a"] >>
 ASSUME Resolve(T1) = << <<"j", "2">>, <<"yield">>, <<"jal", "1">> >>
+ASSUME ResolveRel(T1) = << <<"jr", "3">>, <<"a:">>, <<"yield">>, <<"jal", "a">> >>
 ASSUME ~UndefinedTarget(T1) /\ UndefinedTarget(<< [lab |-> "", toks |-> <<"j", "nowhere">>, tgt |-> "nowhere"] >>)
 =============================================================================
